@@ -490,6 +490,15 @@ func (g *Gen) initPool() {
 	if g.p(0.15) {
 		g.addPoolSet(g.manyLongSet(), g.p(0.4))
 	}
+	if g.p(0.06) {
+		// a floating-point input with a coordinate no 64-bit integer can
+		// represent (the error paths of the conversions)
+		bad := g.pathSet64(false, false)
+		ref := g.addPoolSet(bad, true)
+		if e := &g.pool[ref]; len(e.PD) > 0 && len(e.PD[0]) > 1 {
+			e.PD[0][g.n(len(e.PD[0]))] = []float64{1e300, -1e300, 9.3e18}[g.n(3)]
+		}
+	}
 	if g.p(0.04) {
 		// a job above 4096 vertices (limits on "large" jobs are only reached by these)
 		var huge clip.Paths64
